@@ -414,6 +414,8 @@ struct GenOpts {
     int min_arity = 1, max_arity = 4;
     bool gappy = false; // prefer definition sets that leave NONE tuples
     bool big_pool = false; // now and then a method with up to 96 definitions
+    bool many_methods = false; // now and then every method of the pool at once
+                               // (more than 64 v-table slots in one class)
 };
 
 inline void transitive_reduce(Spec& s) {
@@ -705,6 +707,10 @@ inline void gen_methods(Choice& ch, Spec& s, const GenOpts& o, int size) {
         }
     }
     int nm = 1 + ch.draw(std::max(1, std::min(o.max_methods, 1 + size / 12)));
+    bool all_methods = o.many_methods && size >= 20 && ch.chance(1, 16);
+    if (all_methods) {
+        nm = int(allowed.size()) * 2;
+    }
     std::vector<std::pair<int, int>> used;
     for (int mi = 0; mi < nm; ++mi) {
         MethSpec m;
@@ -712,6 +718,10 @@ inline void gen_methods(Choice& ch, Spec& s, const GenOpts& o, int size) {
         do {
             m.shape = allowed[ch.draw(allowed.size())];
             m.key = ch.draw(2);
+            if (all_methods) {
+                m.shape = allowed[mi / 2];
+                m.key = mi % 2;
+            }
             if (++tries > 8) {
                 break;
             }
@@ -761,6 +771,9 @@ inline void gen_methods(Choice& ch, Spec& s, const GenOpts& o, int size) {
         // definitions
         int maxd = std::min({o.max_defs, 16, 2 + size / 6});
         int nd = ch.draw(maxd + 1);
+        if (all_methods) {
+            nd = ch.draw(3);
+        }
         if (big) {
             nd = 50 + ch.draw(47); // 50..96, on both sides of 64
         }
